@@ -103,6 +103,11 @@ def check(ctx):
     c08.r_wiring(ctx)
     c09.r_equations(ctx)
     c09.r_stack(ctx)
+    # preconditions the panic-site discharges of the instantiate path cite: the admitted counter widths (for_while's index arithmetic)
+    # and the push/pop pairing of the scope stacks (expect("Stack is empty") in compile::Scope)
+    c09.r_call_site(ctx)
+    from . import c10
+    c10.r_pairing(ctx)
     c04.r_zip(ctx, 'R03.6')
     # values that enter the program at instantiation (arguments) are built by the layout constructors: a mis-built value
     # does not unify with the declared type
@@ -112,6 +117,9 @@ def check(ctx):
     c06.panic_rule(ctx, 'R03.3', entries=['TemplateProgram::instantiate', 'CompiledProgram::commit'], what='instantiate/commit')
     from . import c12
     c12.r_instantiate_gate(ctx, 'R03.5')
+    c12.r_parameters(ctx)           # every Parameter node was recorded by insert_parameter (discharge of get_argument's expect)
+    from . import c01
+    c01.schema_rules(ctx, only={'compile::<impl ast::Program>::compile': r''})      # main compiled in the unit environment at unit type (commit().expect)
     c12.r_argument_scopes(ctx)      # the rest of the discharge of get_argument's expect: every scope holds the checked arguments
     if ctx.tier == 'thorough':
         from .. import witness
